@@ -12,15 +12,16 @@ one() {
   (cd /repo && git ls-files -z | grep -zv '/testdata/' | xargs -0 cp --parents -t "$scratch")
   if ! (cd "$scratch" && git init -q . && git apply "$d/patch.diff" 2>/dev/null); then echo "$(basename $d): patch does not apply"; rm -rf "$scratch"; return; fi
   own=$(basename "$d" | cut -d- -f1)
-  : > "$d/caught_by.tmp"
+  : > "$d/caught_by.tmp"; : > "$d/caught_rules.tmp"
   for p in $("$here/bin/kinlint" -list); do
     out=$("$here/bin/kinlint" -property "$p" -tier quick -dir "$scratch" -verif "$here" -no-evidence 2>&1)
     if echo "$out" | grep -q '^VIOLATION'; then
       echo "$p" >> "$d/caught_by.tmp"
+      echo "$out" | grep -E '^\s+(VIOLATED|UNDECIDED)' | grep -oE 'C[0-9]{2}\.[a-z0-9-]+' | sort -u >> "$d/caught_rules.tmp"
       echo "$out" | grep -E '^\s+(VIOLATED|UNDECIDED)' | head -3 | sed "s|^|    [$p] |" > "$d/.report.$p"
     fi
   done
-  mv "$d/caught_by.tmp" "$d/caught_by"
+  mv "$d/caught_by.tmp" "$d/caught_by"; sort -u "$d/caught_rules.tmp" > "$d/caught_rules"; rm -f "$d/caught_rules.tmp"
   echo "$(basename $d): caught by [$(tr '\n' ' ' < $d/caught_by)]"; cat "$d"/.report.* 2>/dev/null | cut -c1-260; rm -f "$d"/.report.*
   rm -rf "$scratch"
 }
